@@ -233,6 +233,12 @@ def run(M, c):
         M.cls("timetz", c["off"] % 60 == 0, c["f"])
         tz = FT(c["off"]) if c["f"] else P.UTC
         _judge(M, "time", P.Time(*F[3:], tzinfo=tz), sig_extra=":aware")
+        # a time of day carrying a region zone (no offset without a date) or a standard-library zone
+        import zoneinfo as _zi
+
+        for rz, tag in ((P.timezone(("Europe/Paris", "America/New_York", "Asia/Kathmandu")[c["off"] % 3]), ":region-zone"),
+                        (_zi.ZoneInfo("Europe/London"), ":zoneinfo")):
+            _judge(M, "time", P.Time(*F[3:], tzinfo=rz, fold=c["f"]), sig_extra=":aware" + tag)
     elif k == "fixedtz":
         M.cls("fixedtz", c["off"] % 60 == 0)
         _judge(M, "timezone", FT(c["off"]))
